@@ -91,12 +91,29 @@ Section Build.
     end.
 End Build.
 
+(* the iteration orders of the Python sets `our_markers - their_markers` observed on the implementation: the list in operand order
+   (what the model computes) and the order in which the set was iterated.  An entry is used only when it is a rearrangement of the
+   list it is looked up for; any other list is ordered by the uniform selector perm_of k. *)
+Definition ptable := list (list marker * list marker).
+Definition markers_same (l l' : list marker) : bool := marker_same (MMulti l) (MMulti l').
+Definition is_rearrangement (l v : list marker) : bool :=
+  Nat.eqb (List.length l) (List.length v)
+  && forallb (fun x => existsb (marker_same x) v) l && forallb (fun y => existsb (marker_same y) l) v.
+Fixpoint plookup (t : ptable) (l : list marker) : option (list marker) :=
+  match t with
+  | [] => None
+  | (key, v) :: t' => if markers_same key l && is_rearrangement l v then Some v else plookup t' l
+  end.
+Definition perm_with (t : ptable) (k : nat) (l : list marker) : list marker :=
+  match plookup t l with Some v => v | None => perm_of k l end.
+Definition tables := (vtable * ptable)%type.
+
 Inductive mcase :=
-| MCAnd (t : vtable) (k : nat) (a b : marker) (r : pyres marker)
-| MCOr (t : vtable) (k : nat) (a b : marker) (r : pyres marker)
-| MCParse (t : vtable) (k : nat) (p : ptree) (r : pyres marker)
-| MCExclude (t : vtable) (k : nat) (name : str) (a : marker) (r : pyres marker)
-| MCOnly (t : vtable) (k : nat) (names : list str) (a : marker) (r : pyres marker)
+| MCAnd (t : tables) (k : nat) (a b : marker) (r : pyres marker)
+| MCOr (t : tables) (k : nat) (a b : marker) (r : pyres marker)
+| MCParse (t : tables) (k : nat) (p : ptree) (r : pyres marker)
+| MCExclude (t : tables) (k : nat) (name : str) (a : marker) (r : pyres marker)
+| MCOnly (t : tables) (k : nat) (names : list str) (a : marker) (r : pyres marker)
 | MCEval (a : marker) (svars : list (str * str)) (ex : list str) (vt : list (atom * bool)) (r : bool).
 
 Fixpoint assoc_str (l : list (str * str)) (k : str) : str :=
@@ -107,11 +124,11 @@ Fixpoint assoc_atom (l : list (atom * bool)) (a : atom) : bool :=
 Definition check_mcase (c : mcase) : bool :=
   let same := fun (k : nat) => if Nat.leb 4 k then mres_psame else mres_same in
   match c with
-  | MCAnd t k a b r => same k (And (vlookup t) (perm_of k) a b) r
-  | MCOr t k a b r => same k (Or (vlookup t) (perm_of k) a b) r
-  | MCParse t k p r => same k (build (vlookup t) (perm_of k) 32 p) r
-  | MCExclude t k n a r => same k (mexclude (vlookup t) (fun _ _ => false) (perm_of k) FUEL n a) r
-  | MCOnly t k ns a r => same k (monly (vlookup t) (fun _ _ => false) (perm_of k) FUEL ns a) r
+  | MCAnd t k a b r => same k (And (vlookup (fst t)) (perm_with (snd t) k) a b) r
+  | MCOr t k a b r => same k (Or (vlookup (fst t)) (perm_with (snd t) k) a b) r
+  | MCParse t k p r => same k (build (vlookup (fst t)) (perm_with (snd t) k) 32 p) r
+  | MCExclude t k n a r => same k (mexclude (vlookup (fst t)) (fun _ _ => false) (perm_with (snd t) k) FUEL n a) r
+  | MCOnly t k ns a r => same k (monly (vlookup (fst t)) (fun _ _ => false) (perm_with (snd t) k) FUEL ns a) r
   | MCEval a svars ex vt r => Bool.eqb (meval (mkMEnv (assoc_str svars) ex (assoc_atom vt)) a) r
   end.
 
